@@ -345,7 +345,8 @@ def to_ops(kind, i, xs, rng=None, style=0):
 def continuations(kind, n, i=1):
     """four continuations of n+2 inputs from values that do not occur in the exploration alphabet"""
     L = n + 2
-    pats = [[4 + k for k in range(L)], [9 + L - k for k in range(L)], [4 if k % 2 else 11 for k in range(L)], [6] * L]
+    # ... and one that stays BELOW / inside the exploration alphabet, so that stale larger values (a cached maximum) would surface
+    pats = [[4 + k for k in range(L)], [9 + L - k for k in range(L)], [4 if k % 2 else 11 for k in range(L)], [6] * L, [2 if k % 2 else 1 for k in range(L)]]
     return [to_ops(kind, i, p) for p in pats]
 
 
@@ -376,7 +377,7 @@ def plan_C04(tier, seed):
             # runs), so the quick tier takes two continuations and the thorough tier four
             conts = [[{"op": "reset", "i": 1}] + ct for ct in continuations(kind, n)]
             if q:
-                conts = [conts[0], conts[2]]
+                conts = [conts[0], conts[2]] + ([conts[4]] if kind in ("MAX", "FAST_STOCH", "SLOW_STOCH", "CE") else [])
             # ... and one whose first post-reset input is not finite (state that only matters on a non-finite step)
             conts.append([{"op": "reset", "i": 1}, {"op": "tok", "i": 1, "x": "NaN"}] + continuations(kind, n)[1])
             if kind in HLC_KINDS and kind not in BAR_ONLY:
@@ -393,7 +394,7 @@ def plan_C04(tier, seed):
         # the same kinds driven ONLY through Next<&T> before and after reset (state that one of the two paths maintains)
         n = 2
         bars5 = hlc_bars()[:5]
-        cont = [{"op": "reset", "i": 1}] + [b_op(1, bar(x + 2, x, x + 1, v=1)) for x in (5, 7, 6, 9)]
+        cont = [{"op": "reset", "i": 1}] + [b_op(1, bar(x + 2, x, x + 1, v=1)) for x in (1, 3, 2, 5)]
         jobs.append(Job("%s_barpath_n2" % kind, {1: kcfg(kind, n, alt=1)}, balpha=bars5, toks={"NaN"}, resets={1}, conts=[cont], maxdepth=5 + 6,
                         noovf=False, invariants=inv, extra_defs="FreeDepth == FreeDepthOf(5)", extra_cfg="CONSTRAINT FreeDepth"))
     for kind in ("OBV", "MFI"):
@@ -537,7 +538,7 @@ def plan_C06(tier, seed):
                 ba = ba[:5]
             conts = []
             for k, ct in enumerate(continuations(kind, n)):
-                if q and k == 3:
+                if q and (k == 3 or (k == 4 and kind not in ("MAX", "FAST_STOCH", "SLOW_STOCH", "CE"))):
                     continue
                 head = [{"op": "save", "i": 1, "s": 1}, {"op": "restore", "s": 1, "j": 2}]
                 if k == 1:   # just reset
@@ -557,7 +558,7 @@ def plan_C06(tier, seed):
         # checkpoints of instances driven through Next<&T> only (the two paths may keep different state)
         bars5 = hlc_bars()[:5]
         body = []
-        for x in (5, 7, 6, 9):
+        for x in (1, 3, 2, 5):      # interleaving with the explored bars: old highs and lows stay relevant for a while
             o = b_op(1, bar(x + 2, x, x + 1, v=1))
             body += [o, dict(o, i=2)]
         cont = [{"op": "save", "i": 1, "s": 1}, {"op": "restore", "s": 1, "j": 2}] + body
